@@ -205,6 +205,22 @@ impl D {
         };
         self.out.line(&line);
     }
+    /// store and restore what can be stored as JSON (the instrument states: top of book, last trade,
+    /// orders; the asset states are keyed by a struct and have no JSON form)
+    fn persist(&mut self) {
+        let st = &mut self.kit.engine.state;
+        let r = catch(|| -> Result<(), String> {
+            let text = serde_json::to_string(&st.instruments).map_err(|e| format!("serialise: {e}"))?;
+            st.instruments = serde_json::from_str(&text).map_err(|e| format!("deserialise: {e}"))?;
+            Ok(())
+        });
+        let line = match r {
+            Ok(Ok(())) => json!({"a": "Persist", "post": project(&self.kit.engine.state)}),
+            Ok(Err(e)) => json!({"a": "Persist", "anomaly": e}),
+            Err(p) => json!({"a": "Persist", "anomaly": format!("panic: {p}")}),
+        };
+        self.out.line(&line);
+    }
     fn deliver(&mut self, ms: &[Value]) {
         for (applied, ev) in events_of(ms) {
             let via = self.via_engine;
@@ -237,8 +253,13 @@ fn main() {
         "run" => {
             for scn in read_ndjson(args.req("scenarios")) {
                 d.reset();
+                let explicit = scn.get("explicit").and_then(Value::as_bool).unwrap_or(false);
                 for ms in scn["steps"].as_array().expect("steps") {
                     let ms = ms.as_array().expect("message list");
+                    if ms.len() == 1 && i(&ms[0], "t") == -2 {
+                        d.persist();
+                        continue;
+                    }
                     // a message with t = -1 is the spec's Touch (cancel request recorded); only orders have one
                     if ms.len() == 1 && i(&ms[0], "t") == -1 {
                         if s(&ms[0], "item").starts_with("ord_") {
@@ -248,6 +269,9 @@ fn main() {
                         d.deliver(ms);
                     }
                     steps += 1;
+                    if !explicit && steps % 6 == 5 {
+                        d.persist();
+                    }
                 }
             }
         }
@@ -280,6 +304,9 @@ fn main() {
                 }
                 d.deliver(&ms);
                 steps += 1;
+                if rng.random_range(0..20) == 0 {
+                    d.persist();
+                }
             }
         }
         c => usage(&format!("unknown command {c}")),
